@@ -221,6 +221,10 @@ func largeRT[C any](t *testing.T, rec *vt.Recorder, combos [][2]int, mk func(t *
 					o.MaxAlerts, o.MinAlerts, o.MaxSelectors = n, n, 2
 				}
 				m, _ := rgen.GenMsg(t, o)
+				for i := 0; len(m.Entities)%16 != 13; i++ {
+					// an entity count that leaves a remainder for every plausible number of chunks or workers (2, 4, 8, 16)
+					m.Entities = append(m.Entities, rgen.Entity{ID: fmt.Sprintf("odd%d", i), VP: &rgen.VehiclePos{Vehicle: &rgen.VehDesc{ID: rgen.P(fmt.Sprintf("odd-vehicle-%d", i))}, StopID: rgen.P("S1")}})
+				}
 				c := mk(t, zone, m)
 				rec.Eval(fmt.Sprintf("large:%s>=%d", kinds[what], n))
 				// what the message really contains (a size class that does not reach its threshold tests nothing)
@@ -262,7 +266,7 @@ func largeRT[C any](t *testing.T, rec *vt.Recorder, combos [][2]int, mk func(t *
 
 // TestC04Large: links between 9000 / 70000 trips and as many vehicles, plus a third as many vehicles without any identity.
 func TestC04Large(t *testing.T) {
-	largeRT(t, c04Rec, [][2]int{{0, 9000}, {0, 100000}}, func(t *rapid.T, zone string, m *rgen.Msg) CaseRT {
+	largeRT(t, c04Rec, [][2]int{{0, 9000}, {0, 30000}, {0, 100000}}, func(t *rapid.T, zone string, m *rgen.Msg) CaseRT {
 		c := CaseRT{Zone: zone, Msg: m}
 		c.Env = genEnv(t)
 		return c
